@@ -551,6 +551,10 @@ class TB:
                 ops = t[2]
                 if idx < len(ops):
                     return ops[idx]
+            if idx == 0 and t[0] == "dc" and t[2] == 1 and t[1][0] == "checked":
+                # payload of Some(..) of x.checked_op(y) is x op y (the Some edge is the no-overflow fact, guard.edge_facts)
+                c = t[1]
+                return ("bin", c[1], c[2][0], c[2][1], c[3])
             if t[0] == "bin" and t[1].endswith("WithOverflow"):
                 base = t[1][:-len("WithOverflow")]
                 if idx == 0:
@@ -872,6 +876,12 @@ def std_summary(tb, path, upath, fr, args):
     if path in ("core::slice::<impl [T]>::as_ptr", "core::slice::<impl [T]>::as_mut_ptr",
                 "core::str::<impl str>::as_ptr"):
         return ("asptr", args[0])
+    if path == "core::slice::<impl [T]>::as_ptr_range":
+        # Range { start: s.as_ptr(), end: s.as_ptr().add(s.len()) }  (std contract)
+        es = F.size_of(g[0]) if g else None
+        st = ("asptr", args[0])
+        return ("aggr", ("adt", "core::ops::range::Range", "Range", ("start", "end")),
+                (st, ("ptrop", "add", st, ("len", args[0]), es if es is not None else ("sizeof", g[0] if g else "?"))))
     if path in ("core::str::<impl str>::as_bytes",):
         return args[0]
     if path in ("core::ptr::const_ptr::<impl *const T>::cast", "core::ptr::mut_ptr::<impl *mut T>::cast",
